@@ -18,6 +18,7 @@ type zzConn struct {
 	failWrite error
 	onWrite   func(*goatorepo.Rpc)
 	wch       chan *goatorepo.Rpc // when non-nil, every written envelope is also queued here for the peer script
+	congested bool                // message bodies of call 1 are not accepted: such a write waits for its context and fails with its error
 }
 
 func newZZConn() *zzConn {
@@ -36,6 +37,11 @@ func (c *zzConn) Read(ctx context.Context) (*goatorepo.Rpc, error) {
 }
 
 func (c *zzConn) Write(ctx context.Context, rpc *goatorepo.Rpc) error {
+	if c.congested && rpc.Id == 1 && rpc.Body != nil && rpc.Trailer == nil && rpc.Status == nil {
+		// a congested link (back-pressure): allowed transport behaviour, it honours its context
+		<-ctx.Done()
+		return ctx.Err()
+	}
 	c.mu.vfLock()
 	defer c.mu.vfUnlock()
 	if c.failWrite != nil {
